@@ -154,7 +154,7 @@ func checkParsed(roots []*boc.Cell) string {
 			if len(out) > (4*boc.BOCSizeLimit+1)*(gi.MaxDepth+263) {
 				return fmt.Sprintf("FAIL tostring-size root%d_%d_bytes", i, len(out))
 			}
-			if a := t1.TotalAlloc - t0.TotalAlloc; a > uint64(8*len(out)+allocSlack) {
+			if a := t1.TotalAlloc - t0.TotalAlloc; a > uint64(32*len(out)+allocSlack) {
 				return fmt.Sprintf("FAIL tostring-alloc root%d_%d_bytes_allocated_for_%d_bytes_printed", i, a, len(out))
 			}
 		}
